@@ -1,11 +1,11 @@
 SPECIFICATION Spec
 CONSTANTS
   Pair = "MT"
-  MaxDepth = 6
-  MaxCopies = 3
+  MaxDepth = 5
+  MaxCopies = 2
   MaxEdits = 1
   MaxReopens = 2
-  EditOps = {"channels"}
+  EditOps = {"channels", "timing_mark"}
   CopyModes = {"plain-same", "mask-same", "extent-same", "plain-other", "extent-other"}
   MaskNames = {"lo", "mid"}
   Focus = TRUE
